@@ -318,10 +318,13 @@ O(id='_range_intersection.simple', props=['C09'], kind='bounded', entry='h_range
 UB = dict(harness='harness/h_unber.c', units=['asn1-tools/unber/libasn1_unber_tool.c'],
           incdirs=['asn1-tools/unber', 'skeletons', 'libasn1parser', 'libasn1common', 'libasn1fix', 'libasn1print'],
           fp_restrict=[(r'nextChar\)$', ['mem_next']), (r'bytesRead\)$', ['mem_read']), (r'vprintfError\)$', ['err_vprintf']), (r'vprintf\)$', ['out_vprintf'])])
-O(id='unber_stream.b5', props=['C20', 'C04'], kind='bounded', entry='h_unber_stream', defines=['VF_UNBER_N=5'], functions=['unber_stream', 'process_deeper', 'print_TL', 'print_V'],
-  unwind=8, cbmc=['--unwindset', 'process_deeper:7', '--malloc-may-fail', '--malloc-fail-null', '--memory-leak-check'],
-  stubs=['stubs/vsnprintf.c'], bound='every input of at most 5 octets, every option combination (-p, -1, -m); recursion depth <= 6',
-  trusted=['snprintf/vsnprintf stub (stubs/vsnprintf.c)'], min_props=100, timeout=1500, **UB)
+for _p in (0, 1):
+    O(id='unber_stream.b4.p%d' % _p, props=['C20', 'C04'], kind='bounded', entry='h_unber_stream', defines=['VF_UNBER_N=4', 'VF_PRETTY=%d' % _p],
+      functions=['unber_stream', 'process_deeper', 'print_TL', 'print_V'],
+      unwind=7, cbmc=['--unwindset', 'process_deeper:6', '--malloc-may-fail', '--malloc-fail-null', '--memory-leak-check'],
+      stubs=['stubs/vsnprintf.c'], bound='every input of at most 4 octets, option -1, pretty printing %s; recursion depth <= 5' % ('on' if _p else 'off'),
+      trusted=['snprintf/vsnprintf stub (stubs/vsnprintf.c)'], min_props=100, timeout=3000, tier='experimental', **UB)
+
 
 # ---------------------------------------------------------------- C06: BIT STRING DER
 BS = dict(harness='harness/h_bitstring_der.c', units=[SK + 'OCTET_STRING.c', SK + 'BIT_STRING.c'], fp_restrict=[(r'::cb$', ['vf_cb'])])
